@@ -1,4 +1,5 @@
 import Netpoll.ServerLemmas
+import Netpoll.ServerProgress
 /-!
 C13 – the server tracks every accepted connection and shuts down gracefully.
 
@@ -304,6 +305,41 @@ theorem C13_busy_counted {s : S} {i : Nat} {rest : List Nat} {c : Conn} (cfg : C
 
 example : ∃ s, Reachable Cfg.fixed s ∧ (s.conns[0]?.map fun c => (c.shutClosed, c.sawIdle)) = some (true, true) :=
   ⟨after Cfg.fixed gracefulTrace, reach _ _ (by decide), by decide⟩
+
+/-! ### nothing gets stuck -/
+
+/-- Quiescence of the teardown: a registered connection that is closed and whose handler is not running always
+    has an enabled teardown step until its descriptor is closed; and once it is closed it is not in the map. -/
+theorem C13_teardown_quiescence {s : S} (hr : Reachable Cfg.fixed s) {i : Nat} {c : Conn} (hc : s.conns[i]? = some c)
+    (hreg : c.reg = true) (hcl : c.closing = true) (hb : c.busy = false) :
+    (c.td ≠ .closed → (step Cfg.fixed s (.tStart i)).isSome = true ∨ (step Cfg.fixed s (.tUntrack i)).isSome = true ∨
+                      (step Cfg.fixed s (.tFdClose i)).isSome = true) ∧
+    (c.td = .closed → s.tracked i = false) := by
+  refine ⟨fun h => teardown_enabled Cfg.fixed hc hreg hcl hb h, ?_⟩
+  intro htd
+  have hg := good_reachable hr
+  cases ht : s.tracked i with
+  | false => rfl
+  | true =>
+    obtain ⟨f, hf⟩ := (tracked_iff hg i).mp ht
+    obtain ⟨d, hd, _, hl⟩ := hg.mapC f i hf
+    rw [hc] at hd; cases hd
+    have := ((hg.loc i c hc).live_open hl).2
+    rw [htd] at this; simp at this
+
+/-- A Shutdown call in progress is never blocked: one of its own steps is enabled (in the wait state: the timer
+    step), or – while it tears an idle connection down inside `Close()` – the next step of that teardown. -/
+theorem C13_shutdown_progress {s : S} (hr : Reachable Cfg.fixed s) (hgo : s.sh ≠ .idle ∧ s.sh ≠ .retNil ∧ s.sh ≠ .retCtx) :
+    (∃ a, a ∈ [Act.shQuit, .shDetach, .shLnClose, .shRound, .shObserve, .shClose, .shTornDown, .shRecheck, .shEnd, .shTick] ∧
+        (step Cfg.fixed s a).isSome = true) ∨
+    (∃ i, s.sh = .tearing i ∧ ((step Cfg.fixed s (.tUntrack i)).isSome = true ∨ (step Cfg.fixed s (.tFdClose i)).isSome = true)) := by
+  have hg := good_reachable hr
+  refine shutdown_progress hr hgo ?_ ?_
+  · intro i hi; obtain ⟨c, hc, _⟩ := hg.idle i hi; simp [hc]
+  · intro i hi; obtain ⟨c, hc, _⟩ := hg.todoOk i hi; simp [hc]
+
+example : ∃ s, Reachable Cfg.fixed s ∧ s.sh = .tearing 0 :=
+  ⟨after Cfg.fixed (accept7 ++ shutdownStart ++ [.shObserve, .shClose]), reach _ _ (by decide), by decide⟩
 
 /-! ### descriptor exhaustion -/
 
